@@ -37,7 +37,7 @@ def vname(v: int) -> str:
 class Src:
     """One instance built with real objects."""
 
-    __slots__ = ("I", "mode", "vals", "nodes", "graphs", "root", "function", "view", "obj_ids", "val_id",
+    __slots__ = ("I", "mode", "vals", "nodes", "graphs", "root", "function", "view", "obj_ids", "val_id", "part_ids",
                  "root_vals", "uses0", "order0", "init_ids")
 
     def __init__(self, I: dict, mode: str = "graph"):
@@ -98,9 +98,25 @@ class Src:
         self.view = ir.GraphView(self.root.inputs, self.root.outputs, nodes=list(self.root),
                                  initializers=list(self.root.initializers.values()), name="g1",
                                  opset_imports={"": 20})
+        # mutable parts of the values: types (plain, sequence, optional - rotating), shapes, metadata
+        for k, v in sorted(self.vals.items()):
+            t = ir.TensorType(ir.DataType.FLOAT)
+            if k % 3 == 1:
+                t = ir.SequenceType(t)
+            elif k % 3 == 2:
+                t = ir.OptionalType(ir.SequenceType(t))
+            v.type = t
+            if k % 2:
+                v.shape = ir.Shape([3, "N"])
+            v.metadata_props["vf.k"] = str(k)
+            v.meta["vf.m"] = k
         self.val_id = {id(v): k for k, v in self.vals.items()}
         self.obj_ids = set(self.val_id) | {id(n) for n in self.nodes.values()} | {id(g) for g in self.graphs.values()}
         self.obj_ids |= {id(self.function), id(self.view)}
+        self.part_ids = {}
+        for v in self.vals.values():
+            for kind, o in value_parts(v):
+                self.part_ids[id(o)] = kind
         self.root_vals = sorted(k for k in self.vals if k < 10 or (k > 100 and gof[prod(k) - 1] == 1))
         self.uses0 = self._uses()
         self.order0 = {g: [id(n) for n in gr] for g, gr in self.graphs.items()}
@@ -202,6 +218,19 @@ def source_free_terms(src: Src, ins: list, outs: list):
     return [term(src.vals[o]) for o in outs]
 
 
+def value_parts(v):
+    """The mutable objects a value holds (a copy must not share them): type objects down to the innermost element
+    type, the shape, the metadata containers.  Tensors may be shared."""
+    t = v.type
+    while t is not None:
+        yield "type", t
+        t = getattr(t, "elem_type", None) if isinstance(t, (ir.SequenceType, ir.OptionalType)) else None
+    if v.shape is not None:
+        yield "shape", v.shape
+    yield "metadata", v.metadata_props
+    yield "metadata", v.meta
+
+
 def shared_objects(src: Src, res) -> list:
     """Kinds of objects of the extracted graph that ARE objects of the source (must be empty)."""
     bad = []
@@ -214,6 +243,8 @@ def shared_objects(src: Src, res) -> list:
         for v in list(gr.inputs) + list(gr.outputs) + list(gr.initializers.values()):
             if id(v) in oid:
                 bad.append("value:graph-interface")
+            else:
+                bad.extend(f"value-part:{src.part_ids[id(o)]}" for _, o in value_parts(v) if id(o) in src.part_ids)
         for n in gr:
             if id(n) in oid:
                 bad.append("node")
@@ -223,6 +254,8 @@ def shared_objects(src: Src, res) -> list:
             for v in n.outputs:
                 if id(v) in oid:
                     bad.append("value:node-output")
+                else:
+                    bad.extend(f"value-part:{src.part_ids[id(o)]}" for _, o in value_parts(v) if id(o) in src.part_ids)
             for a in n.attributes.values():
                 if a.type == GRAPH:
                     subs = [a.as_graph()]
